@@ -29,7 +29,47 @@ func anyString(m sg.Model, suffix string, f func(s string) bool) bool {
 	return hit
 }
 
-const findingMergeKey = "hcl-map-key-read-as-yaml-merge"
+const (
+	findingMergeKey = "hcl-map-key-read-as-yaml-merge"
+	findingIndexFn  = "hcl-index-function-is-element-access"
+)
+
+// usesFunc reports whether the HCL-only part of the description calls fn.
+func usesFunc(m sg.Model, fn string) bool {
+	has := func(e sg.Expr) bool {
+		for _, f := range e.Funcs() {
+			if f == fn {
+				return true
+			}
+		}
+		return false
+	}
+	for _, b := range m.Locals {
+		for _, l := range b.Locals {
+			if has(l.Expr) {
+				return true
+			}
+		}
+	}
+	for _, e := range m.Exprs {
+		if has(e) {
+			return true
+		}
+	}
+	return false
+}
+
+func lit(s string) sg.Expr { return sg.Expr{K: "s", S: s} }
+
+func fcall(f string, a ...sg.Expr) sg.Expr { return sg.Expr{K: "f", S: f, A: a} }
+
+func list(l ...string) sg.Expr {
+	e := sg.Expr{K: "l", L: []sg.Expr{}}
+	for _, s := range l {
+		e.L = append(e.L, lit(s))
+	}
+	return e
+}
 
 var findings = []finding{
 	{
@@ -41,6 +81,20 @@ var findings = []finding{
 			return sg.Model{Kind: "http",
 				Requests:  []sg.Request{{Name: "r", Method: "GET", URI: "/", Headers: &sg.KVs{{K: "<<", V: "v"}}}},
 				Scenarios: []sg.Scenario{{Name: "s", Steps: []sg.Step{{Name: "r"}}}}}
+		},
+	},
+	{
+		// docs/eng/scenario/functions.md links `index` to "finds the element index for a given value in a list";
+		// the eval context binds the name to cty's stdlib.IndexFunc, which is element access (collection[key])
+		id:      findingIndexFn,
+		matches: func(m sg.Model) bool { return usesFunc(m, "index") },
+		witness: func() sg.Model {
+			return sg.Model{Kind: "http",
+				Requests:  []sg.Request{{Name: "r", Method: "GET", URI: "/", Tag: p("y")}},
+				Scenarios: []sg.Scenario{{Name: "s", Steps: []sg.Step{{Name: "r"}}}},
+				Locals:    []sg.LocalsBlock{{Locals: []sg.Local{{Name: "names", Expr: list("a", "b")}}}},
+				Exprs: map[string]sg.Expr{"requests[0].tag": fcall("element", list("x", "y"),
+					fcall("index", sg.Expr{K: "ref", S: "names"}, lit("b")))}}
 		},
 	},
 }
